@@ -6,7 +6,7 @@
    filters and of the set-theoretic queries. *)
 From Coq Require Import String ZArith List Bool.
 From XV Require Import Base.Label Base.LSet Base.ODict Base.Attr Base.Outcome Model.Hypergraph Model.Stats
-  Proofs.HgViews Proofs.HgInv Proofs.StatsProofs Model.DiHypergraph Proofs.DiInv Proofs.DuplicatesProofs.
+  Proofs.HgViews Proofs.HgInv Proofs.StatsProofs Model.DiHypergraph Proofs.DiInv Proofs.DuplicatesProofs Proofs.NeighborsS.
 Import ListNotations.
 Open Scope Z_scope.
 
@@ -102,6 +102,19 @@ Theorem C06_filterby_attr_exact : forall k view name missing m v s x,
   In x view /\ exists z, attr_stat k name missing s x = AInt z /\ fcmp m z v = true.
 Proof. exact filterby_attr_exact. Qed.
 Print Assumptions C06_filterby_attr_exact.
+
+(* neighbors(n, s) for s > 1: the nodes sharing an edge with n that share at least s edges with it *)
+Theorem C06_neighbors_s_spec : forall sv s n x, sv <> 1 ->
+  (In x (Stats.neighbors SNode sv s n) <->
+   x <> n /\ (exists e, In e (mships s n) /\ In x (mems s e)) /\
+   sv <= Z.of_nat (length (sinter (mships s n) (mships s x)))).
+Proof. exact node_neighbors_s_spec. Qed.
+Print Assumptions C06_neighbors_s_spec.
+
+Theorem C06_shared_edges : forall s n x e, Inv s ->
+  (In e (sinter (mships s n) (mships s x)) <-> In n (mems s e) /\ In x (mems s e)).
+Proof. exact shared_edges_spec. Qed.
+Print Assumptions C06_shared_edges.
 
 Example C06_nonvacuous :
   let s := run [OAddEdgesFrom (EB1 [[LInt 1; LInt 2; LInt 3]; [LInt 1; LInt 2]; [LInt 3; LInt 4]; [LInt 1; LInt 2]]) []] hg_empty in
